@@ -44,7 +44,7 @@ func (c01) Cases(tier string) int {
 	if tier == "thorough" {
 		return 400000
 	}
-	return 12000
+	return 60000
 }
 func (c01) RaceCases(tier string) int {
 	if tier == "thorough" {
